@@ -18,6 +18,9 @@ ASSUMPTIONS = ["ref/xml_tokenizer.json reviewed (snapshot of the code after the 
 
 
 def run(ctx):
+    ctx.rule("R15.9", "XmlParser::process feeds the tokenizer until it is done: a script suspension does not leave the rest of the chunk queued")
+    from . import tokrules as _tr9
+    ctx.guard("R15.9", "driver", lambda: _tr9.driver_feeds_until_done(ctx, "R15.9", "xml_driver", "XmlParser<Sink>[TendrilSink<tendril::fmt::UTF8>]::process", "xml5ever driver process"))
     ctx.rule("R15.8", "a run of characters is only appended (R03.10); finish_attribute empties both attribute buffers (R01.7)")
     from . import tokrules as _tr8
     ctx.guard("R15.8", "runs/xml", lambda: _tr8.runs_only_concatenate(ctx, "R15.8", "xml"))
